@@ -172,6 +172,9 @@ impl MCOptimiser {
         let threshold: f64 = rng.gen();
 
         match new {
+            // A score which is not a number (e.g. the energy of coincident particles) or is
+            // infinite doesn't describe a valid state, so it is rejected like an invalid one.
+            Some(new_score) if !new_score.is_finite() => None,
             // New score is better, keep updated state
             Some(new_score) if new_score > old => Some(new_score),
             // When the score increases, there is a probability of accepting the new
